@@ -37,6 +37,10 @@ RESEED = {"np.random.seed", "numpy.random.seed", "random.seed"}
 CLOCK = {"time.time", "time.time_ns", "datetime.now", "datetime.datetime.now", "uuid.uuid4"}
 
 
+DYNAMIC = {"forward", "backward", "jacobian"}
+DYNAMIC_SELF = {"_forward", "_backward", "_jacobian"}
+
+
 def is_public(q):
     parts = q.split(".")
     return not any(p.startswith("_") for p in parts) and not q.endswith(".setter")
@@ -56,6 +60,21 @@ def run(rep):
             allf[(rel, q)] = f
     rep.unit(f"{len(MODULES)} modules, {len(allf)} functions/methods")
     rep.floor("functions analysed", len(allf), 250)
+
+    # dynamic dispatch: methods of the transform interface (public entry points called on `trans` arguments, and the internal methods the
+    # base class calls on self), resolved to every implementation with the same positional signature
+    dyn = {}
+    for (rel_, q_), f_ in allf.items():
+        if rel_ != "stat/transform.py" or "." not in q_ or q_.endswith(".setter"):
+            continue
+        mname = q_.split(".")[1]
+        if mname in DYNAMIC:
+            dyn.setdefault(("*", mname), []).append((rel_, q_))
+        if mname in DYNAMIC_SELF:
+            dyn.setdefault(("*", "self." + mname), []).append((rel_, q_))
+    for k_ in list(dyn):
+        n0 = len(allf[dyn[k_][0]].args.args)
+        dyn[k_] = [c_ for c_ in dyn[k_] if len(allf[c_].args.args) == n0]
 
     def resolver_for(rel, q):
         m = mods[rel]
@@ -82,11 +101,19 @@ def run(rep):
                         key = MODALIAS.get(m.imports[f.value.id].split(".")[-1])
                         if key and f.attr in mods[key].funcs:
                             target = (key, f.attr)
+            if target is None and isinstance(f, ast.Attribute) and isinstance(f.value, ast.Name) and f.attr in DYNAMIC and \
+                    f.value.id not in ("self", "cls") and f.value.id not in m.imports:
+                # a method of the repository's polymorphic interface called on an object of unknown class (a `trans` parameter):
+                # the union of every class's implementation
+                target = ("*", f.attr)
+            if target is not None and target[0] != "*" and isinstance(f, ast.Attribute) and isinstance(f.value, ast.Name) and f.value.id in ("self", "cls") and \
+                    ("*", "self." + f.attr) in dyn:
+                target = ("*", "self." + f.attr)           # self._forward(...) in a base class: any override
             if target is None:
                 return None
-            fd = allf[target]
+            fd = allf[dyn[target][0]] if target[0] == "*" else allf[target]
             pn = [a.arg for a in fd.args.posonlyargs + fd.args.args]
-            if pn and pn[0] in ("self", "cls") and "." in target[1]:
+            if pn and pn[0] in ("self", "cls") and ("." in target[1] or target[0] == "*"):
                 pn = pn[1:]
             bound = {}
             for n_, a in zip(pn, call.args):
@@ -99,7 +126,20 @@ def run(rep):
         return resolve
 
     # ---- summaries to a fixpoint
-    summ = {k: {"mutates": set(), "returns": set()} for k in allf}
+    class _Summ(dict):
+        """summaries; a synthetic key ("*", name) stands for the union of the implementations registered in `dyn`"""
+
+        def get(self, k, default=None):
+            if isinstance(k, tuple) and k and k[0] == "*":
+                out = {"mutates": set(), "returns": set()}
+                for c_ in dyn.get(k, ()):
+                    sm_ = dict.get(self, c_)
+                    if sm_:
+                        out["mutates"] |= sm_["mutates"]
+                        out["returns"] |= sm_["returns"]
+                return out
+            return dict.get(self, k, default)
+    summ = _Summ({k: {"mutates": set(), "returns": set()} for k in allf})
     results = {}
     for _round in range(4):
         changed = False
